@@ -65,7 +65,10 @@ const (
 	cfgMaxStake = 100000 // max_stake = 1e-5 ZCN
 )
 
-func newEnv(extra map[string]interface{}) *env {
+func newEnv(extra map[string]interface{}) *env { return newEnvN(extra, 2, 1) }
+
+// newEnvN: the base world with the given numbers of miners and sharders (all registered in the contract).
+func newEnvN(extra map[string]interface{}, nMiners, nSharders int) *env {
 	ov := scOverrides()
 	for k, v := range extra {
 		ov[k] = v
@@ -83,7 +86,7 @@ func newEnv(extra map[string]interface{}) *env {
 		e.provs = append(e.provs, p)
 		e.byName[name] = p
 	}
-	w := world.New(world.Options{Clients: 4, Miners: 2, Sharders: 1, SCOverrides: ov, ExtraGenesis: genesis,
+	w := world.New(world.Options{Clients: 4, Miners: nMiners, Sharders: nSharders, SCOverrides: ov, ExtraGenesis: genesis,
 		PreGenesis: func(w *world.World) {
 			// keys of providers that are not in the magic block, and of all delegate wallets, get genesis tokens
 			for _, n := range []string{"b1", "b2"} {
@@ -97,9 +100,13 @@ func newEnv(extra map[string]interface{}) *env {
 			genesis[s.ID] = 1e6
 		}})
 	e.w = w
-	mk(w, "m1", spenum.Miner, "minersc", w.Miners[0], 0.1, 2)
-	mk(w, "m2", spenum.Miner, "minersc", w.Miners[1], 0.5, 3)
-	mk(w, "s1", spenum.Sharder, "minersc", w.Sharders[0], 0.2, 2)
+	charges := []float64{0.1, 0.5, 0, 0.2, 1}
+	for i, k := range w.Miners {
+		mk(w, fmt.Sprintf("m%d", i+1), spenum.Miner, "minersc", k, charges[i%5], 2+i%2)
+	}
+	for i, k := range w.Sharders {
+		mk(w, fmt.Sprintf("s%d", i+1), spenum.Sharder, "minersc", k, charges[(i+3)%5], 2)
+	}
 	e.buildBase()
 	return e
 }
@@ -127,7 +134,7 @@ func (e *env) buildBase() {
 			}
 			in := map[string]interface{}{
 				"simple_miner": map[string]interface{}{"id": p.Key.ID, "n2n_host": p.Name + ".n2n", "host": p.Name + ".host",
-					"port": 7100 + len(e.provs)*0 + int(p.Name[0])%7*10 + int(p.Name[1]-'0'), "public_key": p.Key.Pub, "short_name": p.Name, "build_tag": "verif"},
+					"port": 7100 + int(p.Name[0])%7*10 + int(p.Name[1]-'0'), "public_key": p.Key.Pub, "short_name": p.Name, "build_tag": "verif"},
 				"stake_pool": map[string]interface{}{"settings": spSettings(p)},
 			}
 			e.must(fn+" "+p.Name, w.SC(p.Key, "minersc", fn, in, 0, 0))
